@@ -252,6 +252,32 @@ func CheckMain(id, tier string) int {
 		v := viol[s]
 		// confirm: replay 5x in this process, must reproduce the same signature every time
 		confirmed, detail := confirm(ck, v)
+		if !confirmed && v.NShards > 0 {
+			// the case does not fail in isolation: re-run the shard that found it, twice, in fresh
+			// processes. If the same signature appears both times the violation is deterministic but
+			// depends on state that earlier cases left behind in the process (library-global state).
+			ok := true
+			for k := 0; k < 2 && ok; k++ {
+				out := filepath.Join(scratch, fmt.Sprintf("confirm-%d-%d.json", v.Shard, k))
+				cmd := exec.Command(exe, "worker", id, tier, strconv.Itoa(v.Shard), strconv.Itoa(v.NShards), out)
+				cmd.Env = append(os.Environ(), "GOMAXPROCS=1", "VERIF_WORKER=1")
+				cmd.Run()
+				ok = false
+				if b, err := os.ReadFile(out); err == nil {
+					r := new(WorkerResult)
+					if json.Unmarshal(b, r) == nil {
+						for _, x := range r.Violations {
+							ok = ok || x.Signature == v.Signature
+						}
+					}
+				}
+			}
+			if ok {
+				confirmed = true
+				v.Mode = "shard"
+				v.What += " [does not fail in isolation: depends on process-wide state left by earlier cases of the same run; reproduced by re-running shard " + fmt.Sprintf("%d/%d", v.Shard, v.NShards) + " twice]"
+			}
+		}
 		if !confirmed {
 			fmt.Printf("UNCONFIRMED property=%s signature=%q: %s (not reported as violation; harness nondeterminism)\n", id, s, detail)
 			m.Notes["unconfirmed:"+s]++
@@ -385,7 +411,21 @@ func ReplayMain(path string) int {
 		return 2
 	}
 	c := NewCtx(ck.ID, "replay", 1, 0, 1)
-	ck.Replay(c, v.Case)
+	if v.Mode == "shard" {
+		tier := v.Tier
+		if tier == "" {
+			tier = "quick"
+		}
+		c = NewCtx(ck.ID, tier, seedFromEnv(), v.Shard, v.NShards)
+		ck.Run(c)
+		for s := range c.Violations {
+			if s != v.Signature {
+				delete(c.Violations, s)
+			}
+		}
+	} else {
+		ck.Replay(c, v.Case)
+	}
 	if len(c.Violations) == 0 {
 		fmt.Printf("replay of %s: no violation (case passes)\n", path)
 		return 0
